@@ -65,10 +65,10 @@ var errTemp = errors.New("temporary glitch")
 var terminals = []error{io.EOF, io.ErrUnexpectedEOF, errors.New("read |0: use of closed file"), io.ErrNoProgress, io.ErrClosedPipe, io.ErrShortBuffer, syscall.EBADF, fmt.Errorf("wrapped: %w", io.EOF)}
 
 type config struct {
-	zero              bool
+	zero               bool
 	lazy, nocopy, pool bool
-	ctx               bool // PacketsCtx with a cancel action; else Packets()
-	again             bool // a second PacketsCtx call is one of the actions
+	ctx                bool // PacketsCtx with a cancel action; else Packets()
+	again              bool // a second PacketsCtx call is one of the actions
 }
 
 func (c config) String() string {
@@ -413,7 +413,14 @@ func runOnce(t *testing.T, sc scenario, c *dfs.Chooser) (res result) {
 	if cancelAtGrant >= 0 && len(recv) > nBeforeCancel {
 		extra = 1
 	}
-	res.outcome = fmt.Sprintf("n=%d closed=%v cancelAt=%d reads=%d viol=%d", len(recv)-extra, sawClosed, cancelAtGrant, src.reads, len(res.viol))
+	if cancelAtGrant >= 0 {
+		// after a cancel the uncontrolled ready-ready select decides whether one more packet is
+		// sent (and, on a broken tree, whether the loop goes on reading): compare only what the
+		// select cannot influence
+		res.outcome = fmt.Sprintf("n>=%d cancelAt=%d", nBeforeCancel, cancelAtGrant)
+	} else {
+		res.outcome = fmt.Sprintf("n=%d closed=%v reads=%d viol=%d", len(recv)-extra, sawClosed, src.reads, len(res.viol))
+	}
 	return
 }
 
@@ -670,10 +677,11 @@ func TestExplore(t *testing.T) {
 	}
 	// long scenario: 1001 packets, stalled consumer, cancel while the channel is full
 	longScenario(t, r)
-	if mismatch > 0 {
+	if mismatch > 0 && r.NumViolationClasses() == 0 {
 		fmt.Printf("INTERNAL ERROR: %d of %d replayed schedules gave a different outcome\n", mismatch, replays)
 		os.Exit(2)
 	}
+	r.Coverage["replay_mismatches"] = mismatch
 	r.Coverage["states"] = execs
 	r.Coverage["transitions"] = points
 	r.Coverage["traces_validated_against_impl"] = execs
